@@ -80,7 +80,7 @@ X = [
     "$$m$$\n", "(t)=\npara t\n", "x[^f]\n\n[^f]: foot\n", "[r]: http://u\n\n[a][r]\n", "```{tip}\ninner\n```\n", "{abbr}`x (y)`\n", "% c\n", "+++\n",
     "Term\n: def\n", ":f: v\n", "{nosuchrole}`x`\n", "```{nodir}\n```\n", ":::{tip}\ncolon inner\n:::\n", "- [ ] task\n\n  para in item\n",
     "line one  \nline two\n", "```\ncode with trailing blanks  \n\n```\n", "    indented code  \n", "> quoted  \n> second\n",
-    "lead\n\n---\n\ntail\n", "```{topic} Topic title\ntopic body\n```\n", "```{sidebar} Side title\nside body\n```\n", "\ttab indented code\n", "```\na\tb\n```\n", "- li\n\n\ttab continuation\n", "para with\ttab\n",
+    "lead\n\n---\n\ntail\n", "esc \\*x\\* \\[t\\](u) &amp;lt; end\n", "```{topic} Topic title\ntopic body\n```\n", "```{sidebar} Side title\nside body\n```\n", "\ttab indented code\n", "```\na\tb\n```\n", "- li\n\n\ttab continuation\n", "para with\ttab\n",
 ]
 
 
@@ -103,6 +103,13 @@ class Wrappers:
         yield "note``````", "``````{note}\n" + x + "``````\n", lambda doc: doc[0].children, None, True
         yield "note:::", "::::{note}\n" + x + "::::\n", lambda doc: doc[0].children, None, True
         yield "note::::::", "::::::{note}\n" + x + "::::::\n", lambda doc: doc[0].children, None, True
+        # (CommonMark trims the info string: trailing blanks of the first line cannot be a hard break there)
+        if x[:1].isalnum() and not any(l.startswith((":", "---")) for l in x.split("\n")[1:]) and x.split("\n")[0] == x.split("\n")[0].rstrip():
+            # the body starts ON the fence line (argument-less directive): same nodes, for both fence kinds
+            yield "note-firstline```", "````{note} " + x + "````\n", lambda doc: doc[0].children, None, False
+            yield "note-firstline:::", "::::{note} " + x + "::::\n", lambda doc: doc[0].children, None, False
+        # a substitution whose value uses ANOTHER substitution twice (judged against using that one twice directly)
+        yield "subst-twice", "{{k}}\n", lambda doc: doc.children, {"k": "{{j}}\n\n{{j}}\n", "j": x}, False
         yield "epigraph", "````{epigraph}\n" + x + "````\n", lambda doc: doc[0].children, None, True
         yield "pull-quote:::", "::::{pull-quote}\n\n" + x + "::::\n", lambda doc: doc[0].children, None, False
         yield "adm-opts", "````{admonition} T\n:class: c\n\n" + x + "````\n", lambda doc: doc[0].children[1:], None, False
@@ -142,7 +149,7 @@ class TransparencySystem(System):
         self.wrap = Wrappers(self.dir, f"-{wid}")
 
     def bounds(self):
-        return {"blocks": self.k, "symbols": len(X), "wrappers": 18}
+        return {"blocks": self.k, "symbols": len(X), "wrappers": 21}
 
     def alphabet(self):
         return X
@@ -169,13 +176,24 @@ class TransparencySystem(System):
         for name, text, sel, subs, first_must_be_plain in wrap.make(x):
             if first_must_be_plain and (x.startswith(":") or x.startswith("---")):
                 continue
-            if name == "subst" and ("{{" in x or "{%" in x or "    ind" in x or "\t" in x or "  \n" in x):
+            if name in ("subst", "subst-twice") and ("{{" in x or "{%" in x or "    ind" in x or "\t" in x or "  \n" in x):
                 continue
             n += 1
             try:
                 d, w = render(text, src, subs)
                 o, om = pf(sel(d))
                 om_all = all_msgs(d)
+                if name == "subst-twice":
+                    ref, _ = render("{{j}}\n\n{{j}}\n", src, {"j": x})  # the inner substitution used twice directly
+                    rb, _ = pf(ref.children)
+                    o, _ = pf(d.children)
+                    if o != rb or om_all != all_msgs(ref):
+                        import difflib
+
+                        diff = "\n".join(difflib.unified_diff(rb.splitlines(), o.splitlines(), "written-out", "substituted", lineterm="", n=1))[:1200]
+                        viol.append(violation("transparency", {"clause": "transparency", "wrapper": name, "kind": "nodes"},
+                                              "a substitution whose value uses another substitution twice differs from using that one twice directly", text=text, body=x, diff=diff))
+                    continue
                 if name == "include-again":
                     # duplicated names / footnotes interact between the two copies: the reference is the same text written out twice
                     ref, _ = render(x + "\n\n````{note}\n\n" + x + "````\n", src)  # (blank line: the body must not be read as an option block)
